@@ -178,31 +178,35 @@ def run(R):
     with R.clause('D9', 'OWN', floor=4, desc='read/readline/readlines/__iter__ reach the stream only through expect()') as c:
         for name in READERS:
             f = repo.func('spawnbase:SpawnBase.' + name)
-            forb = []
+            # decided: a reader that talks to the transport or runs the search machinery itself, or that hands out / rewrites the SEARCH buffer
+            # (self.buffer / _buffer may have been trimmed to the search window: it is not the pending text) bypasses expect().
+            hard = []
             for call in calls_in(f.node):
                 d = dotted(call.func) or ''
-                if callee_last(call) in ('read_nonblocking', 'new_data', 'existing_data', 'do_search', 'expect_loop') \
-                        or d in ('os.read',) or stores.store_call(call, f):
-                    forb.append(call)
+                sc = stores.store_call(call, f)
+                if callee_last(call) in ('read_nonblocking', 'new_data', 'existing_data', 'do_search', 'expect_loop') or d in ('os.read',) or (sc and sc[0] == '_buffer'):
+                    hard.append(call)
+            for n in iter_nodes(f.node):
+                if isinstance(n, ast.Attribute) and isinstance(n.ctx, ast.Load) and n.attr in ('buffer', '_buffer') and isinstance(n.value, ast.Name) and n.value.id == 'self':
+                    hard.append(n)
+            c.check(not hard, f, hard[0] if hard else None,
+                    'no direct access to the transport, the search machinery or the (possibly trimmed) search buffer', witness=norm(hard[0])[:80] if hard else None,
+                    tag='through-expect', kind='ast')
+            # not decidable here: a reader with a "fast path" of its own that works on the untrimmed pending text and sets the results itself may
+            # or may not do exactly what expect() would have done -- that is a question about values, not about the shape of the code
+            soft = []
+            for call in calls_in(f.node):
+                sc = stores.store_call(call, f)
+                if sc and sc[0] != '_buffer':
+                    soft.append(call)
             for n in iter_nodes(f.node):
                 if stores.store_attr(n):
-                    forb.append(n)
-            c.check(not forb, f, forb[0] if forb else None,
-                    'no direct access to the transport or the stores', tag='through-expect', kind='ast')
-            # ... nor to the results and the pending text: before / after / match / match_index / buffer are set by the Expecter only (a reader
-            # that hands out or rewrites the pending text itself -- a "fast path when enough is buffered" -- works on the TRIMMED search buffer
-            # and bypasses the search); what a reader returns comes out of an expect() call (or is empty)
-            own = []
-            for n in iter_nodes(f.node):
+                    soft.append(n)
                 if isinstance(n, (ast.Assign, ast.AugAssign, ast.AnnAssign, ast.Delete)):
                     tgs = assigned_targets(n) if not isinstance(n, ast.Delete) else n.targets
                     for t_ in tgs:
                         if isinstance(t_, ast.Attribute) and t_.attr in ('before', 'after', 'match', 'match_index', 'buffer'):
-                            own.append(n)
-                if isinstance(n, ast.Attribute) and isinstance(n.ctx, ast.Load) and n.attr == 'buffer' and isinstance(n.value, ast.Name) and n.value.id == 'self':
-                    own.append(n)
-            c.check(not own, f, own[0] if own else None, 'the reader neither sets the results / the pending text itself nor reads the search buffer',
-                    witness=norm(own[0])[:80] if own else None, tag='results-by-expecter', kind='ast')
+                            soft.append(n)
             g_ = f.cfg
             via = set(n_ for n_, k_ in cfg_nodes_with_call(f, lambda k_: callee_last(k_) in ('expect', 'expect_exact', 'expect_list') + tuple(READERS)
                                                            and isinstance(k_.func, ast.Attribute) and isinstance(k_.func.value, ast.Name) and k_.func.value.id == 'self'))
@@ -212,8 +216,12 @@ def run(R):
                     (isinstance(v_, ast.Call) and norm(v_.func) == 'self.string_type' and not v_.args) or \
                     (isinstance(v_, ast.Call) and norm(v_.func) == 'iter' and v_.args and isinstance(v_.args[0], ast.Attribute)
                      and v_.args[0].attr in READERS and isinstance(v_.args[0].value, ast.Name) and v_.args[0].value.id == 'self')
-                okr = empty or r_ in via or (via and g_.dominated_by(r_, via)[0])
-                c.check(okr, f, r_.ast, 'what the reader returns comes out of an expect() call (or is empty)', witness=norm(r_.ast)[:80], tag='returns-through-expect', kind='path')
+                if not (empty or r_ in via or (via and g_.dominated_by(r_, via)[0])):
+                    soft.append(r_.ast)
+            if not hard:
+                c.need(not soft, '%s: the reader handles the pending text / the results itself (%s): whether that equals what expect() would do cannot be decided here'
+                       % (f.qual, norm(soft[0])[:60] if soft else ''))
+                c.ok(f, None, 'what the reader returns comes out of an expect() call (or is empty); results and pending text are left to the Expecter', kind='path', tag='returns-through-expect')
         for cls in repo.subclasses('SpawnBase'):
             for name in READERS:
                 if cls.name != 'SpawnBase' and name in cls.methods:
